@@ -1,11 +1,15 @@
 import DimodModel.Bqm
+import DimodModel.PyBqm
 import DimodModel.Wire
 open Wire
 
 /-! Line-protocol driver for the BQM model (C04 / C20).
     line   ::= "new" VT | via op args…           via ::= "d" | "vs" | "vb"  (direct, through a SPIN view, through a BINARY view)
     answer ::= ("ok"|"err") " " state            state ::= VT;labels;linear;u:v:bias…;offset   (lower triangle, index order)
-    "read" via  → the reads of that view as coded: linear;u:v:bias…;offset -/
+    "read" via  → the reads of that view as coded: linear;u:v:bias…;offset
+    "rd"        → all readers of the model (see `showReaders`)
+    dict back-end (`PyB`, a second state): "pnew" VT | "pload" VT offset rows | "p" op args…   (data-level primitives only)
+    answer ::= ("ok"|"err") " " VT;offset;label>key=bias&key=bias…;…   (dict order) | "unsupported" -/
 
 namespace BqmDriver
 
@@ -23,6 +27,25 @@ def showRead (m : Bqm) (tv : VT) : String :=
   let lin := String.intercalate "," ((List.range m.lin.length).map fun i => showRat (m.vGetLinear tv i))
   let q := m.lowerTriples.map fun t => (t.1, t.2.1, m.vQuadFactor tv * t.2.2)
   s!"{showVT tv};{lin};{showTriples q};{showRat (m.vOffset tv)}"
+
+/-- every reader of the model (`Bqm.getLinear`, `getQuadratic`, `iterNeighborhood`, `iterQuadratic`, `iterLinear`, `degree`,
+    `shape`/`numInteractions`, `isLinear`, `toNumpyVectors`) as text -/
+def showReaders (m : Bqm) : String :=
+  let ls := m.labels
+  let opt (o : Option Rat) : String := match o with | some x => showRat x | none => "-"
+  let shape := s!"{m.shape.1},{m.shape.2}"
+  let degs := String.intercalate "," (ls.map fun l => match m.degree l with | some d => toString d | none => "x")
+  let lin := String.intercalate "," (m.iterLinear.map fun p => showLabel p.1 ++ "=" ++ showRat p.2)
+  let getl := String.intercalate "," (ls.map fun l => opt (m.getLinear l))
+  let quad := String.intercalate "," (m.iterQuadratic.map fun t => showLabel t.1 ++ "~" ++ showLabel t.2.1 ++ "~" ++ showRat t.2.2)
+  let nbh := String.intercalate ";" (ls.map fun l =>
+    match m.iterNeighborhood l with
+    | some items => String.intercalate "&" (items.map fun p => showLabel p.1 ++ "=" ++ showRat p.2)
+    | none => "x")
+  let getq := String.intercalate "," (ls.flatMap fun a => ls.map fun b => opt (m.getQuadratic a b))
+  let nv := m.toNumpyVectors
+  let vec := String.intercalate "," (nv.1.map showRat) ++ ";" ++ showTriples nv.2.1 ++ ";" ++ showRat nv.2.2
+  String.intercalate "|" [shape, if m.isLinear then "T" else "F", degs, lin, getl, quad, nbh, getq, vec]
 
 def vtOf? (s : String) : Option VT := if s = "SPIN" then some .spin else if s = "BINARY" then some .binary else none
 
@@ -90,6 +113,41 @@ def parseOp (ws : List String) : Option Bqm.Op :=
   | ["xx"] => some .malformed
   | _ => none
 
+def showP (p : PyB) : String :=
+  let rows := String.intercalate ";" (p.adj.map fun r =>
+    showLabel r.1 ++ ">" ++ String.intercalate "&" (r.2.map fun e => showLabel e.1 ++ "=" ++ showRat e.2))
+  s!"{showVT p.vt};{showRat p.off};{rows}"
+
+def parseRows (s : String) : Option (List (Label × List (Label × Rat))) :=
+  if s = "-" then some [] else
+  (s.splitOn ";").mapM fun r =>
+    match r.splitOn ">" with
+    | [l, es] => do
+      let l ← parseLabel? l
+      let es ← (if es = "" then some [] else (es.splitOn "&").mapM fun e =>
+        match e.splitOn "=" with
+        | [k, x] => do pure ((← parseLabel? k), (← parseRat? x))
+        | _ => none)
+      pure (l, es)
+    | _ => none
+
+def stepP (p : PyB) (ws : List String) : PyB × String :=
+  match ws with
+  | ["pnew", vt] => match vtOf? vt with | some v => (PyB.empty v, "ok " ++ showP (PyB.empty v)) | none => (p, "bad-op")
+  | ["pload", vt, off, rows] =>
+    match vtOf? vt, parseRat? off, parseRows rows with
+    | some v, some o, some r => let q : PyB := { vt := v, adj := r, off := o }; (q, "ok " ++ showP q)
+    | _, _, _ => (p, "bad-op")
+  | "p" :: rest =>
+    match parseOp rest with
+    | some op =>
+      match p.step op with
+      | some (q, none) => (q, "ok " ++ showP q)
+      | some (q, some _) => (q, "err " ++ showP q)
+      | none => (p, "unsupported")
+    | none => (p, "bad-op")
+  | _ => (p, "bad-op")
+
 def reply (r : Bqm × Option ErrC) : Bqm × String :=
   match r.2 with
   | none => (r.1, "ok " ++ showState r.1)
@@ -101,6 +159,7 @@ def step (m : Bqm) (line : String) : Bqm × String :=
   | ["new", vt] => match vtOf? vt with | some v => reply (Bqm.empty v, none) | none => bad
   | ["load", vt, ls, lin, q, off] => match parseModel vt ls lin q off with | some m' => reply (m', none) | none => bad
   | ["read", v] => match via? v with | some via => (m, "ok " ++ showRead m (via.tv m)) | none => bad
+  | ["rd"] => (m, "ok " ++ showReaders m)
   | ["en", xs] =>
     let vals := (xs.splitOn ",").filterMap parseRat?
     (m, "ok " ++ showRat (m.energy vals))
@@ -110,13 +169,24 @@ def step (m : Bqm) (line : String) : Bqm × String :=
     | _, _ => bad
   | _ => bad
 
-partial def loop (h : IO.FS.Stream) (m : Bqm) : IO Unit := do
+partial def loop (h : IO.FS.Stream) (m : Bqm) (p : PyB) : IO Unit := do
   let line ← h.getLine
   if line.isEmpty then return ()
-  let (m', out) := step m line
-  IO.println out
-  loop h m'
+  let ws := line.trimAscii.toString.splitOn " "
+  match ws with
+  | w :: _ =>
+    if w = "pnew" || w = "pload" || w = "p" then
+      let (p', out) := stepP p ws
+      IO.println out
+      loop h m p'
+    else
+      let (m', out) := step m line
+      IO.println out
+      loop h m' p
+  | [] =>
+    IO.println "bad-op"
+    loop h m p
 
 end BqmDriver
 
-def main : IO Unit := do BqmDriver.loop (← IO.getStdin) (Bqm.empty .spin)
+def main : IO Unit := do BqmDriver.loop (← IO.getStdin) (Bqm.empty .spin) (PyB.empty .spin)
